@@ -59,6 +59,9 @@ def fieldWF (m : PMsg) (f : PField) : Bool :=
     | .timeUTC | .timeLocal => tcBase f.tcode == Base.uint32 && !tcArray f.tcode
     | .lat | .lng => tcBase f.tcode == Base.sint32 && !tcArray f.tcode
     | .unknown _ => false) &&
+  -- field number 253 (`fieldNumTimeStamp`) is a date_time: the compressed-timestamp path stores a
+  -- time.Time into it by reflection
+  (decide (f.num ≠ 253) || (tcKind f.tcode == .timeUTC)) &&
   -- the struct field exists, has the Go type the code calls for, and the constructor
   -- initialises it to that type's invalid value
   (match m.layout[f.sindex]?, slotOfType f.tcode with
